@@ -239,6 +239,10 @@ def run(ctx, args):
         "round 0 of a chain without round state is exercised only while that node's last record is PLEDGING",
         "memo hits are forced with ristretto's Wait(); eviction / TTL of the memo are not modelled (an evicted entry is a miss)",
     ]
+    if ctx.tier == "thorough":
+        # system level: the CoSi exchange of a real multi-node network (spec/Net/Trace_Cosi.tla, monitor C09)
+        import cosinet
+        cosinet.run_cosinet(ctx)
 
 
 def validate(ctx, d, trace, events, traces):
